@@ -45,6 +45,15 @@ package smgp
 //@   props C16,C03
 //@   ensures [C16 accessor] true
 
+// Triplet sequences with repeated tags (parser agreement, C16): both parsers keep the LAST occurrence of a tag.
+// tseq(S): S is a sequence of complete triplets; thas(S, k): tag k occurs in it; tlast(S, k): the value of its last occurrence.
+//@ pure func ttag(S Bytes) int = dbe16(take(S, 2))
+//@ pure func tlen(S Bytes) int = dbe16(take(drop(S, 2), 2))
+//@ pure func trest(S Bytes) Bytes = drop(S, 4 + tlen(S))
+//@ rec func tseq(S Bytes) bool = len(S) == 0 ? true : (len(S) >= 4 && len(S) >= 4 + tlen(S) && tseq(trest(S)))
+//@ rec func thas(S Bytes, k int) bool = len(S) < 4 ? false : (ttag(S) == k || thas(trest(S), k))
+//@ rec func tlast(S Bytes, k int) Bytes = len(S) < 4 ? eps : (thas(trest(S), k) ? tlast(trest(S), k) : (ttag(S) == k ? take(drop(S, 4), tlen(S)) : eps))
+
 //@ func ParseOptions
 //@   props C16,C03
 //@   ensures [C16,C11 wf] err == nil ==> tlvwf(result)
@@ -56,6 +65,12 @@ package smgp
 //@   ghost M Options, ord Ord
 //@   requires isperm(ord, M) && tlvwf(M) && content(rawData) == tlvser(M, ord, 0, len(M))
 //@   ensures [C16,C01,C02 parsed] err == nil && mapeq(result, M)
+//@   behavior dup props=C16
+//@   ghost k int
+//@   requires tseq(content(rawData)) && 0 <= k && k < 65536
+//@   ensures [C16 last.ok] err == nil
+//@   ensures [C16 last.dom] mapdom(result, k) <==> thas(content(rawData), k)
+//@   ensures [C16 last.value] mapdom(result, k) ==> content(result[k].value) == tlast(content(rawData), k) && int(result[k].length) == len(result[k].value) && int(result[k].tag) == k
 //@   loop 1
 //@     invariant 0 <= p && p <= length
 //@     invariant tlvwf(ops)
@@ -66,6 +81,11 @@ package smgp
 //@     invariant @ser len(ops) == iter
 //@     invariant @ser forall k int :: mapdom(ops, k) <==> (mapdom(M, k) && ordinv(ord, k) < iter)
 //@     invariant @ser forall k int :: mapdom(ops, k) ==> ops[k].tag == M[k].tag && ops[k].length == M[k].length && content(ops[k].value) == content(M[k].value)
+//@     invariant @dup tseq(drop(content(rawData), p))
+//@     invariant @dup thas(content(rawData), k) <==> (thas(drop(content(rawData), p), k) || mapdom(ops, k))
+//@     invariant @dup thas(drop(content(rawData), p), k) ==> tlast(content(rawData), k) == tlast(drop(content(rawData), p), k)
+//@     invariant @dup !thas(drop(content(rawData), p), k) && mapdom(ops, k) ==> content(ops[k].value) == tlast(content(rawData), k)
+//@     invariant @dup mapdom(ops, k) ==> int(ops[k].length) == len(ops[k].value) && int(ops[k].tag) == k
 //@     decreases length - p
 
 //@ func ReadOptions
@@ -84,6 +104,11 @@ package smgp
 //@   requires !packet.rfailed(r)
 //@   requires isperm(ord, M) && tlvwf(M) && packet.rem(r) == tlvser(M, ord, 0, len(M))
 //@   ensures [C16,C01,C02 parsed] !packet.rfailed(r) && mapeq(result, M)
+//@   behavior dup props=C16
+//@   ghost k int
+//@   requires !packet.rfailed(r) && tseq(packet.rem(r)) && 0 <= k && k < 65536
+//@   ensures [C16 last.dom] mapdom(result, k) <==> thas(old(packet.rem(r)), k)
+//@   ensures [C16 last.value] mapdom(result, k) ==> content(result[k].value) == tlast(old(packet.rem(r)), k) && int(result[k].length) == len(result[k].value) && int(result[k].tag) == k
 //@   loop 1
 //@     invariant packet.rinv(r)
 //@     invariant tlvwf(options) && fresh(options)
@@ -94,6 +119,11 @@ package smgp
 //@     invariant @ser len(options) == iter
 //@     invariant @ser forall k int :: mapdom(options, k) <==> (mapdom(M, k) && ordinv(ord, k) < iter)
 //@     invariant @ser forall k int :: mapdom(options, k) ==> options[k].tag == M[k].tag && options[k].length == M[k].length && content(options[k].value) == content(M[k].value)
+//@     invariant @dup !packet.rfailed(r) && tseq(packet.rem(r))
+//@     invariant @dup thas(entry(packet.rem(r)), k) <==> (thas(packet.rem(r), k) || mapdom(options, k))
+//@     invariant @dup thas(packet.rem(r), k) ==> tlast(entry(packet.rem(r)), k) == tlast(packet.rem(r), k)
+//@     invariant @dup !thas(packet.rem(r), k) && mapdom(options, k) ==> content(options[k].value) == tlast(entry(packet.rem(r)), k)
+//@     invariant @dup mapdom(options, k) ==> int(options[k].length) == len(options[k].value) && int(options[k].tag) == k
 //@     decreases len(packet.rem(r))
 
 // ---------------------------------------------------------------- header peeking (C02, C03)
